@@ -15,8 +15,8 @@ Ltac rops := cbv beta iota zeta delta [R_ops o_ltb o_leb o_eqb o_add o_sub o_mul
 
 Theorem Sphere_evaluate_gen_eq_model : forall x, Sphere_evaluate_gen_R x = [sphere x].
 Proof.
-  intros. unfold Sphere_evaluate_gen_R, Sphere_evaluate_gen, Sphere_evaluate_l1_body. rops.
-  rewrite fold_add_sum_map. unfold sphere. f_equal. ring.
+  intros. unfold Sphere_evaluate_gen_R, Sphere_evaluate_gen. rops.
+  rewrite ?fold_plus_map_sum, ?fold_add_sum_map. unfold sphere. f_equal. ring.   (* loop or sum / np.sum spelling *)
 Qed.
 
 Theorem Sphere_set_gen_eq_model : forall n, Sphere_set_gen_R n = declared sphere_b n.
@@ -26,13 +26,13 @@ Qed.
 
 Theorem Ackley_evaluate_gen_eq_model : forall x, Ackley_evaluate_gen_R x = [ackley x].
 Proof.
-  intros. unfold Ackley_evaluate_gen_R, Ackley_evaluate_gen, Ackley_evaluate_l1_body. rops.
+  intros. unfold Ackley_evaluate_gen_R, Ackley_evaluate_gen. rops.
   rewrite fold_left_pair, !fold_add_sum_map, !Rplus_0_l. reflexivity.
 Qed.
 
 Theorem Rosenbrock_evaluate_gen_eq_model : forall x, Rosenbrock_evaluate_gen_R (length x) x = [rosenbrock x].
 Proof.
-  intros. unfold Rosenbrock_evaluate_gen_R, Rosenbrock_evaluate_gen, Rosenbrock_evaluate_l1_body. rops.
+  intros. unfold Rosenbrock_evaluate_gen_R, Rosenbrock_evaluate_gen. rops.
   rewrite (fold_adjacent (fun a b => (1 - a) * (1 - a) + (b - a ^ 2) * (b - a ^ 2) * 100) rosenbrock); try reflexivity.
   f_equal. ring.
 Qed.
@@ -43,14 +43,16 @@ Proof. intros. unfold Rosenbrock_set_gen_R, Rosenbrock_set_gen, declared. rops. 
 Theorem Ackley_set_gen_eq_model : forall n, Ackley_set_gen_R n = declared ackley_b n.
 Proof. intros. unfold Ackley_set_gen_R, Ackley_set_gen, declared. rops. rewrite map_const_seq. reflexivity. Qed.
 
-Lemma schwefel_fold : forall l a,
-  fold_left (fun f c => f - c * sin (sqrt (Rabs c)) + 4189828872724339 / 10000000000000) l a = a + schwefel l.
-Proof. induction l; intros; simpl; [unfold schwefel; simpl; ring | rewrite IHl; unfold schwefel, schwefel_term, schwefel_alpha; simpl; ring]. Qed.
-
+(* whatever the loop body is (two statements as in the source, or one re-associated statement): it adds the model's term *)
 Theorem Schwefel_evaluate_gen_eq_model : forall x, Schwefel_evaluate_gen_R x = [schwefel x].
 Proof.
-  intros. unfold Schwefel_evaluate_gen_R, Schwefel_evaluate_gen, Schwefel_evaluate_l1_body. rops.
-  rewrite schwefel_fold. f_equal. ring.
+  intros. unfold Schwefel_evaluate_gen_R, Schwefel_evaluate_gen. rops.
+  match goal with |- context [fold_left ?b x _] =>
+    assert (H : forall l a, fold_left b l a = a + schwefel l)
+      by (induction l as [|c l IH]; intros; simpl;
+          [unfold schwefel; simpl; ring | rewrite IH; unfold schwefel, schwefel_term, schwefel_alpha; simpl; ring]);
+    rewrite H end.
+  f_equal. ring.
 Qed.
 
 Theorem Schwefel_set_gen_eq_model : forall n, Schwefel_set_gen_R n = declared schwefel_b n.
@@ -58,7 +60,7 @@ Proof. intros. unfold Schwefel_set_gen_R, Schwefel_set_gen, declared. rops. rewr
 
 Theorem ModifiedEasom_evaluate_gen_eq_model : forall x, ModifiedEasom_evaluate_gen_R x = [easom x].
 Proof.
-  intros. unfold ModifiedEasom_evaluate_gen_R, ModifiedEasom_evaluate_gen, ModifiedEasom_evaluate_l1_body. rops.
+  intros. unfold ModifiedEasom_evaluate_gen_R, ModifiedEasom_evaluate_gen. rops.
   rewrite fold_left_pair, fold_mul_prod_map, fold_add_sum_map, Rplus_0_l. reflexivity.
 Qed.
 
@@ -67,7 +69,7 @@ Proof. intros. unfold ModifiedEasom_set_gen_R, ModifiedEasom_set_gen, declared. 
 
 Theorem EqualityConstr_evaluate_gen_eq_model : forall x, EqualityConstr_evaluate_gen_R (length x) x = [eqconstr x].
 Proof.
-  intros. unfold EqualityConstr_evaluate_gen_R, EqualityConstr_evaluate_gen, EqualityConstr_evaluate_l1_body. rops.
+  intros. unfold EqualityConstr_evaluate_gen_R, EqualityConstr_evaluate_gen. rops.
   rewrite fold_left_pair, fold_mul_prod_map, fold_add_sum_map, Rplus_0_l, Rmult_1_l.
   unfold eqconstr, eqc_sum, eqc_prod, eqc_atol, dimR. destruct (Rle_dec _ _); reflexivity.
 Qed.
@@ -77,9 +79,10 @@ Proof. intros. unfold EqualityConstr_set_gen_R, EqualityConstr_set_gen, declared
 
 Theorem Griewank_evaluate_gen_eq_model : forall x, Griewank_evaluate_gen_R x = [griewank x].
 Proof.
-  intros. unfold Griewank_evaluate_gen_R, Griewank_evaluate_gen, Griewank_evaluate_l1_body. rops.
+  intros. unfold Griewank_evaluate_gen_R, Griewank_evaluate_gen. rops.
   rewrite fold_left_pair_el, fold_add_sum_idx, fold_mul_prod_idx, sum_idx_const, Rplus_0_l, Rmult_1_l.
-  unfold griewank. do 3 f_equal. apply prod_idx_ext. intros. rewrite INR_add1. reflexivity.
+  rewrite (prod_idx_ext _ (fun i c => cos (c / sqrt (INR (S i))))) by (intros; rewrite ?INR_add1; reflexivity).
+  reflexivity.
 Qed.
 
 Theorem Griewank_set_gen_eq_model : forall n, Griewank_set_gen_R n = declared griewank_b n.
@@ -87,7 +90,7 @@ Proof. intros. unfold Griewank_set_gen_R, Griewank_set_gen, declared. rops. rewr
 
 Theorem Michaelwicz_evaluate_gen_eq_model : forall x, Michaelwicz_evaluate_gen_R x = [michalewicz x].
 Proof.
-  intros. unfold Michaelwicz_evaluate_gen_R, Michaelwicz_evaluate_gen, Michaelwicz_evaluate_l1_body. rops.
+  intros. unfold Michaelwicz_evaluate_gen_R, Michaelwicz_evaluate_gen. rops.
   rewrite fold_add_sum_idx, Rplus_0_l. unfold michalewicz. do 2 f_equal.
   apply sum_idx_ext. intros. rewrite INR_add1. reflexivity.
 Qed.
@@ -114,7 +117,7 @@ Qed.
 
 Theorem Perm_evaluate_gen_eq_model : forall x, Perm_evaluate_gen_R (length x) x = [perm x].
 Proof.
-  intros. unfold Perm_evaluate_gen_R, Perm_evaluate_gen, Perm_evaluate_l1_body, Perm_evaluate_l2_body. rops.
+  intros. unfold Perm_evaluate_gen_R, Perm_evaluate_gen. rops.
   rewrite Nat.add_sub. unfold perm. rewrite <- (Rplus_0_l (perm_outer _ _)), <- perm_outer_fold. f_equal.
   apply fold_left_ext. intros f i. rewrite fold_add_sum_idx. unfold perm_inner. f_equal.
   apply sum_idx_ext. intros. rewrite !plus_INR, INR_plus1. replace (INR 1) with 1 by reflexivity.
@@ -129,8 +132,10 @@ Qed.
 
 Theorem Rastrigin_evaluate_gen_eq_model : forall x, Rastrigin_evaluate_gen_R (length x) x = [rastrigin x].
 Proof.
-  intros. unfold Rastrigin_evaluate_gen_R, Rastrigin_evaluate_gen, Rastrigin_evaluate_l1_body. rops.
-  rewrite fold_add_sum_map, mult_INR. replace (INR 10) with 10 by (simpl; ring). reflexivity.
+  intros. unfold Rastrigin_evaluate_gen_R, Rastrigin_evaluate_gen. rops.
+  rewrite fold_add_sum_map, mult_INR. replace (INR 10) with 10 by (simpl; ring).
+  try rewrite (sum_map_ext' _ (fun c => c ^ 2 - 10 * cos (2 * PI * c))) by (intros; ring).   (* c ** 2 or c * c *)
+  reflexivity.
 Qed.
 
 Theorem Rastrigin_set_gen_eq_model : forall n, Rastrigin_set_gen_R n = declared rastrigin_b n.
